@@ -13,8 +13,11 @@ def leaf(i):
 def _lists_worker(arg):
     """all lists over alphabet of size a with the given first element and length 1..L -> {root: list}"""
     from skepticoin.merkletree import get_merkle_root, get_merkle_tree
-    a, L, first = arg
+    a, L, first = arg[:3]
     ids = [leaf(i) for i in range(a)]
+    if len(arg) > 3:
+        # an alphabet with the ids other code treats as special: all-zero ("no hash") and all-ones
+        ids = [b'\x00' * 32, b'\xff' * 32] + ids[2:]
     roots = {}
     bad = []
     n = 0
@@ -223,25 +226,25 @@ def _pair_worker(arg):
 def run(ctx):
     a, L = (3, 9) if ctx.quick else (4, 9)
     N = 80 if ctx.quick else 140
-    jobs = [(a, L, f) for f in range(a)]
+    jobs = [(a, L, f) for f in range(a)] + [(3, 8, f, 'special') for f in range(3)]
     if not ctx.quick:
         jobs += [(2, 16, f) for f in range(2)]
     res = ctx.pmap(_lists_worker, jobs)
     nlists = 0
-    for (aa, LL) in sorted({(j[0], j[1]) for j in jobs}):
+    for (aa, LL, sp) in sorted({(j[0], j[1], len(j) > 3) for j in jobs}):
         allroots = {}
         for j, r in zip(jobs, res):
-            if (j[0], j[1]) != (aa, LL):
+            if (j[0], j[1], len(j) > 3) != (aa, LL, sp):
                 continue
             nlists += r[2]
             for b in r[1]:
                 ctx.violation('root-collision', "lists %r and %r over %d ids have the same commitment" % (b[0], b[1], aa),
-                              {'kind': 'lists', 'a': aa, 'x': list(b[0]) if b[0] != 'tree-vs-root' else None,
+                              {'kind': 'lists', 'a': aa, 'special': sp, 'x': list(b[0]) if b[0] != 'tree-vs-root' else None,
                                'y': list(b[1])})
             for root, lst in r[0].items():
                 if root in allroots:
                     ctx.violation('root-collision', "lists %r and %r over %d ids have the same commitment"
-                                  % (allroots[root], lst, aa), {'kind': 'lists', 'a': aa, 'x': list(allroots[root]),
+                                  % (allroots[root], lst, aa), {'kind': 'lists', 'a': aa, 'special': sp, 'x': list(allroots[root]),
                                                                 'y': list(lst)})
                 allroots[root] = lst
     lens = list(range(1, N + 1))
@@ -256,10 +259,13 @@ def run(ctx):
         for kind, n, x in bad:
             ctx.violation('%s' % kind, "length %d: %s %s" % (n, kind, x), {'kind': 'len', 'n': n})
     nb = _block_edits(ctx)
-    pa, pL = (4, 4) if ctx.quick else (4, 5)
+    pa, pL = 4, 4
     nsh = ctx.ncpu * 2
     npairs = 0
-    for bad, n in ctx.pmap(_pair_worker, [(pa, pL, i, nsh) for i in range(nsh)]):
+    pjobs = [(pa, pL, i, nsh) for i in range(nsh)]
+    if not ctx.quick:
+        pjobs += [(3, 6, i, nsh) for i in range(nsh)]
+    for bad, n in ctx.pmap(_pair_worker, pjobs):
         npairs += n
         for l1, l2, where in bad:
             ctx.violation('tree-depends-on-call-history', "after committing to list %r, the %s of list %r (over %d ids) is wrong" % (
@@ -272,11 +278,11 @@ def run(ctx):
     ctx.cov['thread_schedules'] = thrscen.run(ctx, 'C17', 1 if ctx.quick else 2)
     ctx.cov.update({
         'evaluations': nlists + ne + npf + nb, 'distinct_nontrivial': nlists + ne,
-        'rule': "(i) every list over an alphabet of %d independent ids with length 1..%d%s: commitments pairwise distinct; "
+        'rule': "(i) every list over an alphabet of %d independent ids with length 1..%d%s (and over {all-zero id, all-ones id, one ordinary id} up to length 8): commitments pairwise distinct; "
                 "(ii) every length 1..%d: every single edit (substitute, delete, duplicate in place, insert, every swap, "
                 "append fresh / copy of last / copy of first, rotate, reverse) changes the commitment and the proof for "
                 "every position reproduces it and contains the entry; (iii) the same edits on the transaction lists of "
-                "real blocks with the header kept are refused; (iv) every ordered pair of lists over 4 ids with length <= %d: "
+                "real blocks with the header kept are refused; (iv) every ordered pair of lists over 4 ids with length <= %d (thorough: also over 3 ids with length <= 6): "
                 "tree and all proofs of the second list right after committing to the first. distinct = lists + edits enumerated"
                 % (a, L, "" if ctx.quick else " and over 2 ids with length 1..16", N, pL),
         'samples': [{'lists_over_alphabet': a, 'first': [0], 'last': [a - 1] * L}, {'length': lens[0], 'edits': [e[0] for e in edits([1, 2, 3], 9)][:8]}],
@@ -292,6 +298,8 @@ def replay(data, ctx):
     out = []
     if data['kind'] == 'lists':
         ids = [leaf(i) for i in range(data['a'])]
+        if data.get('special'):
+            ids = [b'\x00' * 32, b'\xff' * 32] + ids[2:]
 
         def rt(l):
             try:
